@@ -194,6 +194,25 @@ def probe(model, where):
             raise Mismatch(where, "value/dtype under no_autodiff differs from the tracked run: %s %s vs %s %s" % (r.dtype, r.data, ref.dtype, ref.data))
         if r.creator is not None or r.base is not None:
             raise Mismatch(where, "result records a creator or base under no_autodiff")
+    # in-place updates of a tensor that holds a gradient: written into its own memory, the gradient stays
+    gw = FIX.gpool.pop()
+    gkeep, gdata = gw.grad.copy(), gw.data
+    gw -= 0.5
+    gw[...] = 1.0
+    mg.multiply(gw, 2.0, out=gw)
+    if gw.data is not gdata or not np.array_equal(gdata, [2.0, 2.0]):
+        raise Mismatch(where, "in-place update under no_autodiff did not write into the tensor's own memory")
+    if gw.grad is None or not np.array_equal(gw.grad, gkeep):
+        raise Mismatch(where, "an in-place update under no_autodiff changed its target's gradient to %r" % (gw.grad,))
+    # an operation that raises: the arrays a live tracked graph keeps locked stay locked
+    # (the graph lsrc -> lgraph was recorded at the start of this program, after the lock tables were reset)
+    try:
+        mg.matmul(FIX.lsrc, np.zeros((9, 9)))
+        raise Mismatch(where, "harness: failing op did not raise")
+    except ValueError as e:
+        del e
+    if FIX.lsrc.data.flags.writeable or FIX.lgraph.data.flags.writeable:
+        raise Mismatch(where, "a failed op under no_autodiff unlocked arrays that a live tracked graph had locked")
     x = FIX.x
     ops_before = len(x._ops)
     g_before = x.grad.copy()
@@ -251,6 +270,7 @@ def make_fixture():
     FIX.cgraph = mg.multiply(FIX.src1, 2.0, constant=True)
     FIX.ngraph = FIX.src2 * 3.0
     FIX.pool = []
+    FIX.gpool = []
     FIX.refills = 0
     refill_pool()
     # Python-scalar operands with tensors of non-default dtypes: the untracked path must resolve dtypes like the tracked one
@@ -273,6 +293,10 @@ def refill_pool():
         (FIX.vb * 3.0).sum().backward()
     FIX.refills += 1
     FIX.pool += [FIX.vb[1:] for _ in range(32)]
+    for _ in range(32):
+        w = mg.tensor([1.0, 2.0])
+        (w * 3.0).sum().backward()
+        FIX.gpool.append(w)
 
 
 MGR = {}
@@ -376,6 +400,9 @@ def run_program(block):
     EARLY_FUNCS.clear()
     if len(FIX.pool) < 8:
         refill_pool()
+    # a live tracked graph of this program (default settings are in force here): its arrays are locked
+    FIX.lsrc = MGR["mg"].tensor([3.0, 4.0])
+    FIX.lgraph = FIX.lsrc * 3.0
     predecorate(block)
     try:
         try:
